@@ -16,6 +16,7 @@ Inductive sop :=
 | SRedeploy (n : N) (recorded : list (kgrange * ckdoc)) (asg : list (list N)) (layout_ok : bool) (probes : list (list probe))
       (* the job deploys the job checkpoint of the LAST SRescale again (the checkpoints taken since were not published):
          state and timers are those of that checkpoint *)
+| SFresh (n : N)      (* C14: a fresh life of the job (working storage wiped, savepoint storage kept): empty state, n operators *)
 | SRelease (asked deleted : N)      (* an operator let go of the old tables it shares with its neighbours: how many shared
                                        files it asked about, how many of them were deleted although a neighbour lists them *)
 | SSave (c : sp_case).                                     (* C14: observations of a savepoint taken / restored here *)
@@ -169,6 +170,7 @@ Definition step (count : N) (rs : rstate * list N) (o : sop) : rstate * list N :
       let e2 := if layout_ok && negb here then model_rescale count n recorded probes else [] in
       let cls := r_class r || here in
       (mkR (fst (r_sv r)) (snd (r_sv r)) 0 n cls (r_sv r), errs ++ e1 ++ e2)
+  | SFresh n => (mkR [] [] 0 n false ([], []), errs)
   | SRelease asked deleted => (r, errs ++ (if deleted =? 0 then [] else [102]))
   | SSave c => (r, errs ++ check_sp c)
   end.
